@@ -1,6 +1,7 @@
 package main
 
 import (
+	dto "github.com/prometheus/client_model/go"
 	"bufio"
 	"context"
 	"encoding/json"
@@ -90,6 +91,18 @@ type c18 struct {
 	nmsg    atomic.Int64
 	smu     sync.Mutex
 	evc     atomic.Int64
+	met     *metrics.Metrics
+	// the server's listener table has settled to exactly the confirmed streams (stable-phase rules apply)
+	stableSound bool
+}
+
+// gauge: the poll plugin's own count of registered connections
+func (x *c18) gauge() float64 {
+	var m dto.Metric
+	if err := x.met.AioConnection.WithLabelValues((&poll.Poll{}).String()).Write(&m); err != nil {
+		return -1
+	}
+	return m.GetGauge().GetValue()
 }
 
 func (x *c18) connect(group, id string) *stream {
@@ -238,7 +251,7 @@ func runC18(c *runCtx, idx int, r *rand.Rand) {
 		c.rep.Inconclusive++
 		return
 	}
-	x := &c18{c: c, idx: idx, addr: cfg.Addr, p: p, cur: map[string]*stream{}}
+	x := &c18{c: c, idx: idx, addr: cfg.Addr, p: p, cur: map[string]*stream{}, met: met}
 	hookSeed := r.Int63()
 	var hookN atomic.Int64
 	pDelay := pick(r, 0.0, 0.1, 0.4)
@@ -374,6 +387,24 @@ func (x *c18) churnScenario(r *rand.Rand, cfg *poll.Config, fail func(string, st
 		}
 	}
 	x.c.rep.Hit("region.barrier-after-churn")
+	// The strong rules of the stable phase assume that the server's table of listeners is exactly the set of
+	// confirmed streams. Streams the client dropped during the churn are still registered until the server notices
+	// the closed socket (which takes a while on a loaded machine), and a message handed to such a dead connection
+	// is lost by any transport. So wait until the server's own connection gauge equals the number of confirmed
+	// streams; if it does not get there, the strong rules are not applied to this run.
+	x.stableSound = false
+	for t := 0; t < 400; t++ {
+		if int(x.gauge()) == len(confirmed) {
+			x.stableSound = true
+			break
+		}
+		time.Sleep(10 * time.Millisecond)
+	}
+	if x.stableSound {
+		x.c.rep.Hit("region.stable-phase-with-agreed-listener-table")
+	} else {
+		x.c.rep.Hit("stable-phase-skipped-listener-table-not-settled")
+	}
 	// ---- phase 2: stable
 	var p2 []*msgRec
 	for k := 0; k < 30+r.Intn(60); k++ {
@@ -442,7 +473,7 @@ func (x *c18) judge(confirmed map[string]*stream, fail func(string, string, ...a
 				fail("received-but-reported-failed", "message %s was received on %s/%s although Done reported failure (%v)", m.body, s.group, s.id, m.errs.Load())
 			}
 		}
-		if m.phase != 2 {
+		if m.phase != 2 || !x.stableSound {
 			continue
 		}
 		// ---- strong rules for the stable phase
@@ -548,6 +579,26 @@ func (x *c18) limitScenario(r *rand.Rand, cfg *poll.Config, fail func(string, st
 		if !ok {
 			fail("not-replaced", "the older stream of g/%s is still open 3 s after the reconnect", victim)
 		}
+	}
+	// the strong rules need the server's table to hold exactly the streams still open on the client side
+	open := 0
+	for _, s := range confirmed {
+		if !s.eof.Load() {
+			open++
+		}
+	}
+	x.stableSound = false
+	for t := 0; t < 400; t++ {
+		if int(x.gauge()) == open {
+			x.stableSound = true
+			break
+		}
+		time.Sleep(10 * time.Millisecond)
+	}
+	if x.stableSound {
+		x.c.rep.Hit("region.stable-phase-with-agreed-listener-table")
+	} else {
+		x.c.rep.Hit("stable-phase-skipped-listener-table-not-settled")
 	}
 	for k := 0; k < 20; k++ {
 		x.send(pick(r, "invoke", "notify"), "g", pick(r, victim, "id0", "nobody", ""), 2)
